@@ -405,7 +405,7 @@ fn main() {
         return;
     }
     let tier = Tier::parse(&args[2]);
-    let (wall, cap) = tier.pick((Duration::from_secs(40), 5_000_000), (Duration::from_secs(900), 60_000_000));
+    let (wall, cap) = tier.pick((Duration::from_secs(90), 5_000_000), (Duration::from_secs(900), 60_000_000));
     match args[1].as_str() {
         "C10" => {
             let mut rep = Report::new("C10", tier, "model_checking", "fsx");
